@@ -106,7 +106,7 @@ def p2shPattern (flags : Nat) (script : Bytes) : Bool :=
 def IEnv.init (stack : List Bytes) (script : Bytes) (flags : Nat) (sv : SigVersion) : Except ScriptError IEnv :=
   if sv != .TAPSCRIPT && script.length > Gen.MAX_SCRIPT_SIZE then .error .SCRIPT_SIZE
   else
-    let isp := p2shPattern flags script
+    let isp := sv == .BASE && p2shPattern flags script
     .ok { see := { script := script, pbegincodehash := script, stack := stack, flags := flags, sigversion := sv,
                    requireMinimal := hasFlag flags Flag.MINIMALDATA },
           pc := script, done := script.isEmpty, isP2sh := isp, p2shStack := if isp then stack else [] }
